@@ -284,6 +284,26 @@ def run(ck, facts, tier):
                 ck.violation(R, inst, b.where(x.get("ln")), "an identity test compares %s instead of the two whole components" % shapes)
     ck.floor(R, "identity-tests", n, 16)
 
+    # ------------------------------------------------------------------ ALL-PARAMS
+    R = "C17.ALL-PARAMS"
+    ck.rule(R, "K9 (iterator form): SubstitutionExt::may_invalidate compares *every* parameter of the new answer with the current guidance "
+               "- zip(..).any(aggregate_generic_args) with no adaptor that drops or picks elements (filter, skip, take ..); a parameter kind "
+               "left out (e.g. lifetimes) lets make_solution declare guidance final that a later answer contradicts")
+    mi = [k for k in facts.bodies("chalk_engine") if k.endswith("SubstitutionExt>::may_invalidate") and "{" not in k]
+    if not mi:
+        ck.violation(R, "missing-anchor:may_invalidate", "", "SubstitutionExt::may_invalidate not found")
+    else:
+        b = facts.body(mi[0])
+        th = facts.thir(mi[0])
+        DROPPERS = {"filter", "filter_map", "take", "skip", "take_while", "skip_while", "step_by", "find", "find_map", "nth", "last", "flat_map", "position"}
+        ads = [str(c.get("fn", "")).split("::")[-1] for c in calls(th) if str(c.get("fn", "")).split("::")[-1] in DROPPERS]
+        ok = has_call(th, "Iterator::zip") and has_call(th, "Iterator::any") and has_call(th, "aggregate_generic_args") and not ads
+        if ok:
+            ck.ok(R, "may_invalidate:zip-any-over-all-parameters")
+        else:
+            ck.violation(R, "may_invalidate:zip-any-over-all-parameters", b.where(),
+                         "parameters are dropped before the comparison (adaptors: %s)" % ads)
+
     # ------------------------------------------------------------------ SYMMETRY
     R = "C17.SYMMETRY"
     ck.rule(R, "K1: Solution::combine returns the common value when equal, has mirrored trivially-true shortcuts for self and other, "
